@@ -35,7 +35,7 @@ var (
 )
 
 func checkC04(c *core.Ctx, l *core.Ledger) {
-	l.Explanation = "Static clauses of C04 (sibling agreement), on every feasible shape class of each template pair: (SIB-DECODE) FromWire and Decode of struct-like types have the same field arms (id guard, type guard, assignment target, required/optional form, presence flags) and the same post-loop checks; (SIB-ENCODE) ToWire and Encode write each field under the same guard, nil-check, default substitution and arity check; (SIB-CONTAINER) the value and stream forms of list/set/map readers decode the same element types in the same order and build the collection the same way, and of the writers check and write the same elements; the one intentional asymmetry (type-mismatched container: absent vs. skip exactly Length elements) is the CONTAINER-MISMATCH rule of C05; (SIB-WRAPPER) typedef, enum and struct helper pairs are identical up to the path-specific primitive; (SIB-REQUEST) the two request decoders have identical classification arms (with C12); (FULL-READ) every use of the StreamReader's wrapped io.Reader is an argument of io.ReadFull or io.CopyN (or a reset/type test), so how the byte stream is split into reads cannot influence what is decoded. (WIDE-ARITH) a count read from the wire is multiplied only in 64 bits: a 32-bit product wraps, and the pre-scan of the value-based reader then accepts a container header the streaming decoder rejects. (W-FAIL-CAUSES) the serializers of protocol/binary (StreamWriter, Writer and everything they reach in the package) originate an error only when re-wording one they received or for a wire type outside the protocol — no condition on the content or shape of a valid value (nesting depth, string content) makes a serializer fail. (ERR-KEEP) no error value is lost: none is assigned to a variable that is never read (an inner declaration shadowing the checked one), none is overwritten by the next loop iteration unseen, and no deferred function replaces the error result without regard to the error already there. NOT decided: equality of the decoded Go values; behaviour on invalid Go values."
+	l.Explanation = "Static clauses of C04 (sibling agreement), on every feasible shape class of each template pair: (SIB-DECODE) FromWire and Decode of struct-like types have the same field arms (id guard, type guard, assignment target, required/optional form, presence flags) and the same post-loop checks; (SIB-ENCODE) ToWire and Encode write each field under the same guard, nil-check, default substitution and arity check; (SIB-CONTAINER) the value and stream forms of list/set/map readers decode the same element types in the same order and build the collection the same way, and of the writers check and write the same elements; the one intentional asymmetry (type-mismatched container: absent vs. skip exactly Length elements) is the CONTAINER-MISMATCH rule of C05; (SIB-WRAPPER) typedef, enum and struct helper pairs are identical up to the path-specific primitive; (SIB-REQUEST) the two request decoders have identical classification arms (with C12); (FULL-READ) every use of the StreamReader's wrapped io.Reader is an argument of io.ReadFull or io.CopyN (or a reset/type test), so how the byte stream is split into reads cannot influence what is decoded. (WIDE-ARITH) a count read from the wire is multiplied only in 64 bits: a 32-bit product wraps, and the pre-scan of the value-based reader then accepts a container header the streaming decoder rejects. (W-FAIL-CAUSES) the serializers of protocol/binary (StreamWriter, Writer and everything they reach in the package) originate an error only when re-wording one they received or for a wire type outside the protocol — no condition on the content or shape of a valid value (nesting depth, string content) makes a serializer fail. (ERR-KEEP) no error value is lost: none is assigned to a variable that is never read (an inner declaration shadowing the checked one), none is overwritten by the next loop iteration unseen, and no deferred function replaces the error result without regard to the error already there. (POOL-*) pooled stream readers are completely re-initialised when borrowed, so the streaming result cannot depend on what the reader was used for before. NOT decided: equality of the decoded Go values; behaviour on invalid Go values."
 	l.RuleText = "one obligation per (template pair, shape class)"
 	l.Exhaustive = true
 	mod := tmpl.Extract(c)
@@ -198,7 +198,9 @@ func checkC04(c *core.Ctx, l *core.Ledger) {
 	}
 
 	// FULL-READ
-	checkFailCauses(c, l)
+	checkFailCausesMode(c, l, false)
+	// the streaming result must not depend on what the pooled reader was used for before
+	checkPools(c, l)
 	// decoded binaries and strings must not be views of memory the (pooled) reader keeps and reuses
 	checkFreshResults(c, l, "FRESH-RESULT", []string{"protocol/binary"})
 	{
@@ -533,6 +535,9 @@ func layerFuncs(c *core.Ctx, recvs ...string) map[*ssa.Function]bool {
 	return in
 }
 
+// originFunc: position of an error origin → the function it is in.
+var originFunc = map[string]*ssa.Function{}
+
 func failCausesExcept(c *core.Ctx, except map[*ssa.Function]bool, recvs ...string) map[string][]string {
 	out := map[string][]string{}
 	layer := layerFuncs(c, recvs...)
@@ -578,9 +583,13 @@ func failCausesExcept(c *core.Ctx, except map[*ssa.Function]bool, recvs ...strin
 				class = "wrap"
 			} else {
 				for _, cd := range conds {
+					// the deciding condition is the innermost one that is not the "no error so far" guard of an earlier read
+					if strings.HasPrefix(cd, "!") && strings.HasSuffix(cd, "!=c:nil)") {
+						continue
+					}
 					k := ""
 					switch {
-					case strings.Contains(cd, "<c:0)") && !strings.HasPrefix(cd, "!"):
+					case strings.Contains(cd, "<c:0)") && !strings.HasPrefix(cd, "!") && lengthSignTest(in.Block()):
 						k = "negative-length"
 					case strings.Contains(cd, "c:4294901760"):
 						k = "envelope-version"
@@ -593,17 +602,48 @@ func failCausesExcept(c *core.Ctx, except map[*ssa.Function]bool, recvs ...strin
 					}
 					if k != "" {
 						class = k
-						break
+					} else {
+						class = "other:" + cd
 					}
+					break
 				}
 			}
 			if os.Getenv("VDEBUG") != "" {
 				fmt.Fprintln(os.Stderr, "origin", core.SSAName(f), c.Rel(in.Pos()), class, conds)
 			}
 			out[class] = append(out[class], c.Rel(in.Pos()))
+			originFunc[c.Rel(in.Pos())] = f
 		}
 	}
 	return out
+}
+
+// lengthSignTest: b lies under the true arm of a test "x < 0" whose x is a
+// 32-bit (or int) quantity — the width of every length and count of the
+// protocol. A sign test on a narrower value (a field id, a type byte) is not
+// a length check, whatever its spelling.
+func lengthSignTest(b *ssa.BasicBlock) bool {
+	for d := b.Idom(); d != nil; d = d.Idom() {
+		ifi, ok := d.Instrs[len(d.Instrs)-1].(*ssa.If)
+		if !ok {
+			continue
+		}
+		bo, ok := ifi.Cond.(*ssa.BinOp)
+		if !ok || bo.Op != token.LSS {
+			continue
+		}
+		if k, isK := core.ConstInt(bo.Y); !isK || k != 0 {
+			continue
+		}
+		t := d.Succs[0]
+		if !(t == b || (len(t.Preds) == 1 && t.Dominates(b))) {
+			continue
+		}
+		if bt, isB := bo.X.Type().Underlying().(*types.Basic); isB && (bt.Kind() == types.Int32 || bt.Kind() == types.Int) {
+			return true
+		}
+	}
+	return false
 }
 
 // isErrNilTest: the block is entered only through the non-nil edge of a test
@@ -626,7 +666,13 @@ func isErrNilTest(b *ssa.BasicBlock) bool {
 // decode errors for the same kinds of reasons. A cause that exists on one path
 // only (for instance a nesting-depth limit in Skip) makes that path reject
 // inputs the other accepts.
-func checkFailCauses(c *core.Ctx, l *core.Ledger) {
+func checkFailCauses(c *core.Ctx, l *core.Ledger) { checkFailCausesMode(c, l, true) }
+
+// checkFailCausesMode: with protocolOnly every cause must also be one of the
+// protocol's own classes (C02, C05: a well-formed input is never rejected);
+// without it (C04: the two paths agree) a cause of any kind is acceptable
+// when it sits in a primitive both paths go through.
+func checkFailCausesMode(c *core.Ctx, l *core.Ledger, protocolOnly bool) {
 	stream := failCauses(c, "StreamReader")
 	value := failCausesExcept(c, layerFuncs(c, "StreamReader"), "reader", "Reader")
 	// the random-access reader delegates primitives to the stream reader: its own causes must be a subset,
@@ -650,7 +696,18 @@ func checkFailCauses(c *core.Ctx, l *core.Ledger) {
 		}
 		_, both := other[k]
 		ok := known[k] || both
-		l.Check(ok, "FAIL-CAUSES", sk, sites[0], fmt.Sprintf("decode errors of this kind are part of the protocol (%d site(s))", len(sites)), "the "+side+" path originates a decode error under a condition the other path does not have ("+k+"): an input accepted by one path is rejected by the other")
+		if !ok && !protocolOnly && side == "stream" {
+			// every site of the class lies in a function the random-access reader reaches as well
+			valueLayer := layerFuncs(c, "reader", "Reader")
+			shared := len(sites) > 0
+			for _, p := range sites {
+				if f := originFunc[p]; f == nil || !valueLayer[f] {
+					shared = false
+				}
+			}
+			ok = shared
+		}
+		l.Check(ok, "FAIL-CAUSES", sk, sites[0], fmt.Sprintf("decode errors of this kind are part of the protocol (%d site(s))", len(sites)), map[bool]string{true: "the " + side + " path originates a decode error for a reason that is not one of the protocol's (" + k + "): a well-formed encoding is refused", false: "the " + side + " path originates a decode error under a condition the other path does not have (" + k + "): an input accepted by one path is rejected by the other"}[protocolOnly])
 	}
 	l.Floor("FAIL-CAUSES", 3)
 }
